@@ -89,6 +89,9 @@ func exec(p Prim, e *Event) *Resp {
 	case "PutItem":
 		return p.Put(e.C, e.T, e.Item, e.writeArgs())
 	case "GetItem":
+		if len(e.Proj) > 0 {
+			return p.GetProj(e.C, e.T, e.Key, e.Proj)
+		}
 		return p.Get(e.C, e.T, e.Key)
 	case "UpdateItem":
 		return p.Update(e.C, e.T, e.Key, textOf(e.UpdText, func() string { return PrintUpdate(e.Upd) }), e.writeArgs())
